@@ -23,6 +23,9 @@ def _reserve_box(cr):
     cr.bounded_check(run_contract_enum, "reserve-explicit-names-box", c13.reserve, args,
                      f"{len(args)} IR nodes (one per kind / reference position: constant bundles, condition rows, merges, latch conditions, "
                      "entity properties, inlined bundle conditions): every explicit signal name leaves the allocation pool (contract evaluated on the real function)")
+    pargs = c13.pool_arg_sets()
+    cr.bounded_check(run_contract_enum, "signal-pool-box", c13.pool_contract, pargs,
+                     f"{len(pargs)} analyser states: the pool is the virtual signals minus signal-W, the wildcards, allocated and referenced names (contract evaluated on the real method)")
 
 
 def run(tier):
